@@ -133,9 +133,21 @@ def run_arith(chk, bindir, tier, build="debug"):
         nrand = 1500
     args = [os.path.join(bindir, "timearith"), "arith", str(nrand), str(chk.seed + (7 if build == "release" else 0))] + (
         ["full"] if tier == "thorough" and build == "debug" else [])
-    p = core.run_cmd(args, timeout=1800)
-    lines = [json.loads(x) for x in p.stdout.splitlines() if x.strip()]
-    if not lines:
+    p = core.run_cmd(args, timeout=1800, check=False)
+    lines = []
+    for x in p.stdout.splitlines():
+        try:
+            lines.append(json.loads(x))
+        except ValueError:
+            pass                 # a line cut off by a crash
+    if p.returncode != 0:
+        # the code under test brought the driver down (abort, stack overflow, ...): data, not a tool failure
+        chk.violate({"op": "arith", "kind": "crash"},
+                    "the time-arithmetic driver died with rc=%s after %d recorded calls: %s" % (p.returncode, len(lines), p.stderr[-300:].strip()),
+                    {"mode": "crash", "rc": p.returncode})
+        if not lines:
+            return 0
+    elif not lines:
         raise core.ToolError("timearith arith produced no output: " + p.stderr[-500:])
     # judge: the same call is often recorded for both types / both spellings - judge all
     jl = [K.to_judge_line(l) for l in lines]
@@ -219,7 +231,11 @@ def run_arith(chk, bindir, tier, build="debug"):
 
 def run_clock(chk, bindir, tier):
     threads, readings = (4, 2500) if tier == "quick" else (4, 25000)
-    p = core.run_cmd([os.path.join(bindir, "timearith"), "clock", str(threads), str(readings)], timeout=600)
+    p = core.run_cmd([os.path.join(bindir, "timearith"), "clock", str(threads), str(readings)], timeout=600, check=False)
+    if p.returncode != 0:
+        chk.violate({"op": "clock", "kind": "crash"},
+                    "the clock/sleep driver died with rc=%s: %s" % (p.returncode, p.stderr[-300:].strip()), {"mode": "crash", "rc": p.returncode})
+        return 0
     evs = [json.loads(x) for x in p.stdout.splitlines() if x.strip()]
     path = os.path.join(chk.work, "clock.ndjson")
     core.write_ndjson(path, evs)
